@@ -38,6 +38,17 @@ type eqEmbedded struct {
 	Y int
 }
 type EqInner struct{ X int }
+
+// round 14: an embedded field that is no struct (it promotes nothing), and an outer field hiding a promoted one
+type EqInts []int
+type eqEmbSlice struct {
+	EqInts
+	Y int
+}
+type eqShadow struct {
+	EqInner
+	X int
+}
 type eqNested struct {
 	P  *int
 	In eqStruct
@@ -290,6 +301,12 @@ func (n eqNode) build() any {
 	case "pstruct":
 		return &eqStruct{n.Vs[0], n.Ss[0]}
 	case "structE":
+		switch n.Kind {
+		case "embedded-slice":
+			return eqEmbSlice{EqInts{7, n.Vs[0]}, n.Vs[1]}
+		case "shadowed":
+			return eqShadow{EqInner{n.Vs[0]}, n.Vs[1]}
+		}
 		return eqEmbedded{EqInner{n.Vs[0]}, n.Vs[1]}
 	case "structU":
 		return eqPrivate{n.Vs[0], n.Vs[1]}
@@ -748,7 +765,7 @@ func eqLeaves() []eqNode {
 		{T: "ptr", Kids: []eqNode{{T: "prim", V: 7, Kind: "int"}}}, {T: "ptr", Kids: []eqNode{{T: "prim", V: "p"}}},
 		{T: "slice", Vs: []int{1, 2, 3}}, {T: "slice", Vs: []int{1, 2}, Cap: 8}, {T: "array", Vs: []int{1, 2, 3}}, {T: "strs", Ss: []string{"a", "b"}},
 		{T: "map", Ss: []string{"x", "y"}, Vs: []int{1, 2}}, {T: "struct", Vs: []int{1}, Ss: []string{"b"}}, {T: "pstruct", Vs: []int{1}, Ss: []string{"b"}},
-		{T: "structE", Vs: []int{1, 2}}, {T: "structU", Vs: []int{1, 2}},
+		{T: "structE", Vs: []int{1, 2}}, {T: "structU", Vs: []int{1, 2}}, {T: "structE", Kind: "embedded-slice", Vs: []int{1, 2}}, {T: "structE", Kind: "shadowed", Vs: []int{1, 2}},
 		{T: "fslice", Vs: []int{1, 2}}, {T: "sarr", Ss: []string{"p", "q"}}, {T: "imap", Vs: []int{1, 2}, Ss: []string{"a", "b"}}, {T: "ptr3", Vs: []int{9}},
 		{T: "nstruct", Vs: []int{4, 5}, Ss: []string{"s", "l"}}, {T: "typed", Kind: "int64", Vs: []int{6}}, {T: "typed", Kind: "uint16", Vs: []int{6}},
 		{T: "typed", Kind: "float32", Vs: []int{6}}, {T: "typed", Kind: "complex128", Vs: []int{6}}, {T: "typed", Kind: "rune", Vs: []int{66}}, {T: "prim", V: "é日本"},
